@@ -53,30 +53,27 @@ def scenarios(seed, tier):
         for pl in PLANNERS:
             for w in range(nworld):
                 b = dict(base[v])
-                sc = dict(id=sid, variant=v, planner=pl, seed=rnd.randrange(1, 10**6), bias=[0.05, 0.2, 0.5][(w + sid) % 3],
+                sc = dict(id=sid, variant=v, planner=pl, seed=rnd.randrange(1, 10**6) + ((1 << 40) if sid % 2 else 0), bias=[0.05, 0.2, 0.5][(w + sid) % 3],
                           timeout=20.0, build=0.02, **b)
                 if w > 0:
                     sc['maxd'] = b['maxd'] * [1.0, 0.6, 1.7][w % 3]
                     sc['radius'] = b['radius'] * [1.0, 1.4, 0.8][w % 3]
                 out.append(sc)
                 sid += 1
-    # fault schedules (C20): python only. kind x (region | k-th call) x target callback
+    # fault schedules (C20): python only. The full product variant x planner x kind x callback x
+    # schedule (k-th call for several k, or every state of a region).
     faults = []
     kinds = ['raise', 'none', 'int', 'str']
-    ks = [1, 2, 5, 17] if tier == 'quick' else [1, 2, 3, 5, 9, 17, 40, 101]
+    ks = [2, 7] if tier == 'quick' else [1, 2, 3, 5, 9, 17, 40, 101]
     fid = 0
     for v in VARIANTS:
         for pl in ['rrt', 'rrtc', 'rrtstar']:
-            if tier == 'quick' and (fid % 2 == 1):
-                fid += 1
-                continue
             b = dict(base[v])
             for kind in kinds:
-                for sched in ([('k', k) for k in ks] + [('region', 0)]):
-                    if tier == 'quick' and ((len(v) + 3 * len(pl) + 5 * kinds.index(kind) + 7 * sched[1] + (11 if sched[0] == 'region' else 0)) % 3 != 0):
-                        continue
-                    faults.append(dict(id=10000 + len(faults), variant=v, planner=pl, seed=1000 + fid, bias=0.1, timeout=3.0, build=0.05,
-                                       fault=dict(kind=kind, sched=sched[0], k=sched[1], target='valid' if (len(faults) % 4) else 'sat'), **b))
+                for target in ['valid', 'sat']:
+                    for sched in ([('k', k) for k in ks] + [('region', 0)]):
+                        faults.append(dict(id=10000 + len(faults), variant=v, planner=pl, seed=1000 + fid + (1 << 33) * (fid % 2), bias=0.1,
+                                           timeout=3.0, build=0.05, fault=dict(kind=kind, sched=sched[0], k=sched[1], target=target), **b))
             fid += 1
     return {'mirror': out, 'faults': faults}
 
